@@ -79,6 +79,13 @@ def gen_case(seed, idx, tier):
         c.skip = "no-valid-line"
         return c
     nm = partition(rng, cfg)
+    # flags of the group object (handed on to every member handler); the single handler gets the same ones
+    # except 'list argument groups', which only exists in a group
+    # (hfEndValues, hfArgHidden and hfListArgVar cannot be used with more than one member on the unchanged tree: every member
+    # adds the same built-in argument and the cross-check refuses the second one - an observation outside C08, see DESIGN.md)
+    cfg.group_flags = rng.choice([0, 0, HF["listArgGroups"], HF["listArgGroups"] | HF["usageCont"], HF["usageCont"],
+                                  HF["verbose"], HF["usageHidden"] | HF["listArgGroups"]])
+    cfg.flags = cfg.group_flags
     cfg.interleave = rng.random() < 0.5      # definition order: member by member, or all handlers first and arguments interleaved
     names = ["alpha", "beta", "gamma", "delta"][:nm]
     lines = [("valid", uses, None, "")]
@@ -87,6 +94,8 @@ def gen_case(seed, idx, tier):
         rng.shuffle(kinds)
         kinds.insert(0, target)
         for k in kinds:
+            if k == "ambiguous-abbr" and (cfg.group_flags & HF["listArgGroups"]):
+                continue      # the built-in --list-arg-groups only exists in the first member, not in the single handler
             r = c02.mutate(rng, cfg, uses, k)
             if r is None:
                 continue
@@ -221,7 +230,8 @@ def gen_dupkey(c, rng):
         body = A + B + d1 + A + d2
     else:
         body = A + B + C + "AT i2 %s %s\n" % (hx("q,quite-different"), hx("d")) + B + d1 + A + d2
-    text = lambda sid: "S %s dupkey\nGF 0\n%sV %s\nR\n" % (sid, body, hx("prog"))
+    gflags = rng.choice([0, 0, HF["listArgGroups"], HF["usageHidden"], HF["listArgGroups"] | HF["usageCont"], HF["verbose"]])
+    text = lambda sid: "S %s dupkey\nGF %d\n%sV %s\nR\n" % (sid, gflags, body, hx("prog"))
     sid = c.add("c08", text)
     c.meta.update(dup=(kind + "/" + order, k1, k2, sid), runs=[], nm=2)
     return c
@@ -233,6 +243,8 @@ def lookup_interference(cfg, nm, words):
     if not cfg.abbr_enabled():
         return False
     longs = [(a.long, a.member) for a in cfg.args if a.long]
+    # built-in arguments of the group flags live in the first member handler (--list-arg-groups)
+    longs += [(b, 0) for b in cfg.builtin_longs()]
     for w in words:
         if not w.startswith("--") or len(w) < 4:
             continue
@@ -270,6 +282,9 @@ def judge(c, results, rep):
         r = results[sid]
         rep.stat("dupkey." + kind)
         kind = kind.split("/")[0]
+        if r.status == "setup":
+            rep.viol("dupkey|setup-failed", "%s %s" % (r.etype, r.ewhat), [c.scenarios[0][1]])
+            return
         refused = "i1" in r.addfails
         if kind == "distinct":
             if refused or "i0" in r.addfails:
